@@ -34,6 +34,18 @@ for a in args:
                 os.remove(pp)
         json.dump(results, open(res_path, "w"), indent=1, sort_keys=True)
         sys.exit(0)
+def trim_gocache():
+    """mutated trees fill the shared Go build cache quickly: drop entries unused for 2.5 h once it exceeds ~25 GB"""
+    gc = os.environ.get("VERIF_GOCACHE", os.path.join(V, "build", "gocache"))
+    try:
+        sz = int(subprocess.check_output(["du", "-sm", gc]).split()[0])
+        if sz > 25000:
+            subprocess.call(["find", gc, "-type", "f", "-mmin", "+150", "-delete"])
+    except Exception:
+        pass
+
+if part is None:
+    trim_gocache()
 ids = [a for a in args if not a.startswith("--")]
 if not ids:
     ids = sorted(d for d in os.listdir(SEEDED) if os.path.isdir(os.path.join(SEEDED, d)))
@@ -58,7 +70,10 @@ for sid in ids:
         repo = f"/tmp/seedrun-{os.path.basename(V)}-{sid}"  # one scratch worktree per seeded change
         subprocess.call(["git", "-C", "/repo", "worktree", "remove", "--force", repo], stderr=subprocess.DEVNULL)
         subprocess.check_call(["git", "-C", "/repo", "worktree", "add", "-q", "--detach", repo, "HEAD"])
-        subprocess.check_call(["git", "-C", repo, "apply", patch])
+        if subprocess.call(["git", "-C", repo, "apply", patch]) != 0:
+            print(sid, "PATCH DOES NOT APPLY to /repo HEAD any more (rebase it)")
+            subprocess.call(["git", "-C", "/repo", "worktree", "remove", "--force", repo])
+            continue
     try:
         for pid in props:
             env = dict(os.environ, VERIF_REPO=repo, VERIF_EVIDENCE_DIR=os.path.join(V, "build", "seeded-evidence", sid),
